@@ -70,6 +70,16 @@ def run(ctx, out, pid, props, projection, n_quick, n_thorough, pool=None, weight
             # may not take the truth value of a model object for 'is not None'
             case['render'] = 'static-falsy'
             st['falsy_static_cases'] += 1
+        if ci % 7 == 3 and 'render' not in case and not case.get('render_mixed') and not need_views \
+                and 'late' not in case and case.get('templates'):
+            # the metamodel GROWS at run time: the reference features of one template are attached to their classes
+            # only right before the first call that addresses one of them (the objects exist and were used by then);
+            # the model runs the final metamodel from the start
+            cands = [t for t in case['templates'] if t in kgen.REF_TEMPLATES]
+            if cands:
+                t = cands[ci % len(cands)]
+                case['late'] = [fdesc[0] for fdesc in kgen.TEMPLATES[t]]
+                st['late_feature_cases'] += 1
         case['history'] = [op for op in case['history'] if op[0] in kmodel.MODELLED]
         case, r = clean_case(case, props, need_views)
         st['cases'] += 1
@@ -137,6 +147,8 @@ def run(ctx, out, pid, props, projection, n_quick, n_thorough, pool=None, weight
         'cases_with_correspondence_difference': st['cases_with_diff'],
         'cases_failing_oracle': st['cases_failing_oracle'],
         'corpus_cases': st['corpus_cases'], 'focus_cases': st['focus_cases'],
+        'cases_on_falsy_static_rendering': st['falsy_static_cases'],
+        'cases_with_features_attached_at_run_time': st['late_feature_cases'],
         'ops_by_kind': dict(ops_by_kind), 'outcomes_by_code': dict(outcomes),
         'templates_used': dict(tmpl_count), 'history_lengths': dict(hist_len),
         'projection_compared': sorted(projection), 'oracles': sorted(props),
